@@ -7,6 +7,16 @@ TB = ("Trusted: Lean 4.33 kernel (propext, Classical.choice, Quot.sound only); S
       "The theorems are about the Lean model; the model is tied to /repo by regenerated tables (translator) and by "
       "differential execution (harness) on every run.")
 claimed = {
+ "C01": dict(
+   text="Lean theorem auth_iff: for every environment (dependency behaviour), RP, options, response and storage answer, the model of "
+        "VerifyAuthenticationCeremony returns a credential iff the ten conditions of the property hold (allow-list, stored record, owner = user handle, "
+        "client-data type / challenge = unpadded base64url / origin host equal-or-subdomain, authenticator-data layout with SHA-256(RP ID), UP bit 0, UV bit 2 "
+        "when required, signature under the stored key over authenticatorData || SHA-256(clientDataJSON) by the standard primitive of the key's algorithm); "
+        "the record returned is the stored one; unknown ids yield the storage's own error; one corollary per violated condition; non-vacuity witness. "
+        "Tie: constants regenerated from source; the compiled model is executed against the real ceremony on honest, single-deviation, combined and "
+        "byte-mutated responses, comparing accept/reject, the returned record, the storage call log and storage contents; ground truth by construction is "
+        "asserted separately.",
+   ref="DESIGN.md §8 C01", technique="Lean 4 proof (accept iff ten conditions, for all environments) + differential execution with oracle answers from the standard library"),
  "C11": dict(
    text="Lean theorems about the model of the four COSE parsers: each type-specific parser accepts exactly when the struct-decoded members classify "
         "as a supported key under a declarative classifier transcribed from the standards (EC2 x {P-256,P-384,P-521} x {ES256,ES384,ES512}; OKP/Ed25519/32 "
